@@ -4,14 +4,16 @@ CONSTANTS
   Slots = {1, 2}
   Accts = {1}
   Paths = {1}
-  Keys = {1}
-  MaxKids = 1
+  Keys = {}
+  MaxKids = 0
   MaxDepth = 1
   MaxOps = 4
   MaxTx = 0
   NoEvent = {2}
   Big = {}
   SlotRep <- MCSlotRep2
+  OCells = {1}
+  OKeys = {1}
   Forms = {"noabort"}
   RefIds = {1}
   BorrowTys = {"N", "R"}
